@@ -18,6 +18,7 @@ func init() {
 			det(Search{Sc: Eligibility{M: 2, MaxVals: 4, Set: "A", Epoch: 1}, Depth: 3 + d}),
 			det(Search{Sc: Eligibility{M: 4, MaxVals: 4, Set: "B", Epoch: 1}, Depth: 3 + d}),
 			det(Search{Sc: Rewards{Fraction: "0.75", Period: 2}, Depth: 4 + d}),
+			det(Search{Sc: Rewards{Fraction: "0.5", Period: 1, Prov: true}, Depth: 4 + d}),
 			det(Search{Sc: Evidence{Variant: "base"}, Depth: 2 + d}),
 			det(Search{Sc: Lifecycle{Variant: "base"}, Depth: 3 + d}),
 			det(Search{Sc: Stop{Variant: "base"}, Depth: 3 + d}),
